@@ -92,9 +92,14 @@ let trace_of_sx (x : sx) : v list list = List.map col_of_sx (lst x)
 let show_vals (l : extz list) : string = String.concat " " (List.map string_of_extz l)
 let show_bool b = if b then "1" else "0"
 
+let sem_of = function
+  | "standard" -> Standard | "output-robustness" -> OutputRobustness | "input-robustness" -> InputRobustness
+  | "output-vacuity" -> OutputVacuity | "input-vacuity" -> InputVacuity | s -> failwith ("sem " ^ s)
 let pk_of_sx (x : sx) =
   match x with
   | A "std" -> pk_std
+  | L [A "ia"; sem; L io] -> pk_ia_impl (sem_of (atom sem)) (List.map (fun b -> atom b = "1") io)
+  | L [A "iaspec"; sem; L io] -> pk_ia_spec (sem_of (atom sem)) (List.map (fun b -> atom b = "1") io)
   | _ -> failwith "pk"
 
 let handle (x : sx) : string =
